@@ -714,6 +714,12 @@ for _o, _s, _e in _it.product([True, False], [True, False], [True, False]):
     C('truncate', f'flags-orth{int(_o)}-stab{int(_s)}-eigh{int(_e)}',
         lambda g, o=_o, s_=_s, e_=_e: ((_decay(tt(g, [3, 4, 3], 3), 1e-2), 1e-3,
         2), dict(orth=o, use_stab=s_, is_eigh=e_)))
+# a one-core tensor: no bond to truncate, every flag path must still hand out
+# a new array (seeded change C09p: list(Y) instead of copy(Y) for orth=False)
+for _o, _s in _it.product([True, False], [True, False]):
+    C('truncate', f'one-core-orth{int(_o)}-stab{int(_s)}',
+        lambda g, o=_o, s_=_s: (([g.normal(size=(1, 5, 1))], 1e-3),
+        dict(orth=o, use_stab=s_)))
 for _P, _i, _n, _l in _it.product([0, 1], [0, 1], [None, 'l', 'n'], [False, True]):
     C('interface', f'flags-P{_P}-i{_i}-{_n}-ltr{int(_l)}',
         lambda g, P=_P, i=_i, n=_n, l=_l: ((tt(g, [3, 4, 2]),), dict(
